@@ -25,6 +25,10 @@ OUTSIDE = [
     "scaled down through an overlay in the *_small queries)",
     "dispatch clause (__parsec_schedule_vp / next_task / flush_private): the installed module is a recording stub, 2 VPs, rings of <=2; "
     "the flush of a retained task whose ring had >=2 tasks is the known finding C08-flush-private-stale-ring (excluded class, reported separately)",
+    "concurrent entry points (Engine S queries *_conc_*): llp with one scheduling slot per thread plus the deterministic drain (R=1), "
+    "interfering thread = LIFO pop/push or select; ll with R<=2; fixed scenarios (queue contents, calls, priorities), 2 threads; "
+    "module-level interference on llp (select+schedule from a second stream, two concurrent lifo_chain_sorted) is beyond reach "
+    "(solver out of 20 GB / 22 GB and 29 min)",
     "remove()/teardown of the modules",
 ]
 ASSUMPTIONS = [
@@ -233,19 +237,23 @@ def queries(ctx):
         qs.append(Q("%s_conc_%s_r%d" % (mod, CONC[sc], R), [], defs=["SCEN=%d" % sc, "MOD_" + mod, "NES=2", "NT=%d" % NTASK[sc]], engine="S",
                     units=[UNIT[mod], "parsec/class/lifo.h", "parsec/class/list_item.h"], patches=[ES_PATCH],
                     gen=lambda ctx, q, qdir, overlays: (_ov_inc(ctx, q, qdir, overlays), seqir(["hs_conc.c"], threads=["thread0", "thread1"], rounds=R, drain=True, ro_fields=RO, thread_unwind=2)(ctx, q, qdir, overlays))[-1],
-                    unwind=NTASK[sc] + 2, timeout=2400, slow=True, tiers=tiers,
+                    unwind=max(NTASK[sc] + 2, 6), timeout=3000, slow=True, tiers=tiers,
                     info={"symbolic": ["schedule: every SC interleaving with <= %d scheduling slots per thread, completed by a deterministic drain" % R],
                           "enumerated": ["scenario %d (%s): initial queue contents, the two threads' calls and the priorities are fixed" % (sc, CONC[sc])],
                           "stubs": ["scheduler objects initialised field by field as the constructors do (no class system)"],
                           "bounds": {"rounds": R, "threads": 2},
                           "functions": ["sched_%s_schedule" % mod, "sched_%s_select" % mod] + (["lifo_chain_sorted", "lifo_merge_ring"] if mod == "llp" else ["parsec_lifo_chain"]) + ["parsec_lifo_pop"]}))
     conc("llp", 9, 1, both)          # smallest interference (a push) that makes the fast-path CAS fail; quick tier
-    # R = 1 slot per thread + deterministic drain: "T0 runs a prefix, T1 runs a prefix, then both complete".  R = 2 did not get
-    # through CBMC's symbolic execution in 17 CPU-minutes for lifo_chain_sorted (42 yield points, 3 nested retry loops).
-    for sc in (7, 8, 1, 2, 5, 3, 4):
+    conc("ll", 5, 1, both)
+    # llp: R = 1 slot per thread + deterministic drain ("T0 runs a prefix, T1 runs a prefix, then both complete").  Measured limits:
+    # R = 2: CBMC's symbolic execution of lifo_chain_sorted (42 yield points, 3 nested retry loops) not finished after 17 CPU-minutes;
+    # interfering thread = module-level select(es1)+schedule(es0) (scenarios 1, 2) at R = 1: solver out of memory at 20 GB;
+    # two module-level writers (scenario 5) at R = 1: holds, but 1750 s / 22 GB -> not in the tiers.
+    for sc in (7, 8, 3, 4):
         conc("llp", sc, 1, th)
     conc("ll", 6, 1, th)
-    conc("ll", 5, 1, th)
+    conc("ll", 5, 2, th)
+    conc("ll", 6, 2, th)
     return qs
 
 
